@@ -594,3 +594,55 @@ func VerifC03ReaderStartsDuringAdvance() {
 	}
 	vCover("done")
 }
+
+// VerifC03HWCheckpointRestored: a high watermark that was checkpointed is the
+// high watermark after a clean restart (for every value from -1 to the log
+// end, one or several segments), and a committed reader on the reopened log is
+// handed exactly the messages it covers - a message the watermark covered
+// before the restart is still delivered after it.
+func VerifC03HWCheckpointRestored() {
+	dir := vTempDir()
+	n := vParam("msgs", 3)
+	seg := int64(1 << 20)
+	if vChoose(2) == 1 {
+		seg = 100
+		vCover("several-segments")
+	}
+	opts := vOpts(dir, seg)
+	l, err := New(opts)
+	vAssert(err == nil, "New succeeds")
+	for i := 0; i < n; i++ {
+		_, err := l.Append([]*Message{{Value: []byte{byte(i)}, Timestamp: int64(1 + i), MagicByte: 2}})
+		vAssert(err == nil, "Append succeeds")
+	}
+	h := vNondetInt64("hw")
+	vAssume(h >= -1)
+	vAssume(h < int64(n))
+	h = vConcretize64(h)
+	l.SetHighWatermark(h)
+	vAssert(l.(*commitLog).checkpointHW() == nil, "HW checkpoint succeeds")
+	vAssert(l.Close() == nil, "Close succeeds")
+	l2, err := New(opts)
+	vAssert(err == nil, "reopening succeeds")
+	if err != nil {
+		return
+	}
+	vAssert(l2.HighWatermark() == h, "a checkpointed high watermark is the high watermark after a clean restart")
+	r, err := l2.NewReader(0, false)
+	vAssert(err == nil, "NewReader(committed) succeeds")
+	if err != nil {
+		return
+	}
+	buf := make([]byte, 28)
+	for i := int64(0); i <= h; i++ {
+		ctx, cancel := context.WithTimeout(context.Background(), time.Hour)
+		_, off, _, _, err := r.ReadMessage(ctx, buf)
+		cancel()
+		vAssert(err == nil, "a message the high watermark covered before the restart is delivered after it")
+		if err != nil {
+			return
+		}
+		vAssert(off == i, "in offset order")
+	}
+	vCover("done")
+}
